@@ -419,15 +419,15 @@ func runDocs(w *report.W, label string, focus []string, bound int, presentations
 		execs++
 		g := &docgen.Gen{X: x, Focus: focus}
 		doc := g.Pipeline()
-		canon := doc.In.JSON()
 		for _, pres := range presentations {
-			if !w.Take(label + "|" + pres + "|" + canon) {
-				continue
-			}
 			text, err := docgen.Render(doc.In, pres)
 			if err != nil {
 				w.HarnessError("render %s: %v", pres, err)
 				return false
+			}
+			// the case is the rendered text (anchors and quoting are part of it)
+			if !w.Take(label + "|" + pres + "|" + text) {
+				continue
 			}
 			w.P.Evaluations++
 			if len(g.Trace) > 0 {
@@ -507,10 +507,12 @@ func c03run(w *report.W) {
 		runDocs(w, "aliases", []string{"s0.cmd.key", "s0.cmd.label", "s0.cmd.form"}, 1, pres, o, 0)
 		runDocs(w, "all-2dev", nil, 2, pres, o, 0)
 		runDocs(w, "presentation", []string{"present."}, 1, docgen.Presentations, o, 0)
+		runDocs(w, "anchors", []string{"present.anchors"}, 2, []string{"yaml-block", "yaml-flow"}, o, 0)
 	} else {
 		runDocs(w, "aliases", []string{"s0.cmd.key", "s0.cmd.label", "s0.cmd.form"}, 2, pres, o, 0)
 		runDocs(w, "all-3dev", nil, 3, pres, o, 0)
 		runDocs(w, "presentation", []string{"present."}, 2, docgen.Presentations, o, 0)
+		runDocs(w, "anchors", []string{"present.anchors"}, 3, []string{"yaml-block", "yaml-flow"}, o, 0)
 		runDocs(w, "group-aliases", []string{"s0.kind", "s0.grp.", "s0.g.s0.cmd.key", "s0.g.s0.cmd.label"}, 1, pres, o, 0)
 	}
 }
